@@ -69,7 +69,7 @@ Qed.
 (* frozen values and enum candidates are atomic (no dict / list inside): a container held by a frozen field can be written
    to in depth (open finding), and an Enum of containers would constrain the content of a symbolic child *)
 Fixpoint atoms (s : spec) : bool :=
-  negb (frozen (mods_of s) && has_container (dflt (mods_of s))) &&
+  negb (frozen (mods_of s) && (has_container (dflt (mods_of s)) || Typing.is_missing (dflt (mods_of s)))) &&
   match s with
   | SEnum vs _ => forallb (fun v => negb (has_container v)) vs
   | SList e _ _ _ => atoms e
@@ -102,6 +102,19 @@ Proof.
   intros s H F. apply good_parts in H. destruct H as (_ & _ & C).
   destruct s; simpl in *; rewrite F in C; simpl in C;
     destruct (has_container (dflt m)); simpl in C; try discriminate; auto.
+Qed.
+Lemma good_frozen_has_value : forall s, good s = true -> frozen (mods_of s) = true -> Typing.is_missing (dflt (mods_of s)) = false.
+Proof.
+  intros s H F. apply good_parts in H. destruct H as (_ & _ & C).
+  destruct s; simpl in *; rewrite F in C; simpl in C;
+    destruct (Typing.is_missing (dflt m)); auto; rewrite orb_true_r in C; simpl in C; discriminate.
+Qed.
+(* only MISSING_VALUE is applied to MISSING_VALUE *)
+Lemma good_missing_out : forall p s v, good s = true -> apply p s v = Ok PMissing -> v = PMissing.
+Proof.
+  intros p s v G H. pose proof (good_parts _ G) as (U & _ & _).
+  destruct (apply_missing_out _ _ _ (no_union_top' _ U) H) as [(F & D)|(F & D)]; auto.
+  pose proof (good_frozen_has_value _ G F) as M. rewrite D in M. discriminate.
 Qed.
 
 (* --- what a fixed point of apply tells about its members ---------------------------------------------------------- *)
